@@ -33,7 +33,8 @@ def gen_workspace(r, widx):
         for d in r.sample(pool, r.randint(1, min(3, len(pool)))):
             deps.append("libcnb:" + d["id"])
         for _ in range(r.choice([0, 1, 2])):
-            deps.append(r.choice(["docker://docker.io/heroku/procfile-cnb:2.0.1", "../../vendor/other-bp", "./sub/../local-bp", "urn:cnb:registry:heroku/nodejs@1.2.3", "/abs/elsewhere"]))
+            deps.append(r.choice(["docker://docker.io/heroku/procfile-cnb:2.0.1", "../../vendor/other-bp", "./sub/../local-bp", "urn:cnb:registry:heroku/nodejs@1.2.3", "/abs/elsewhere",
+                                  "/abs/vendor/current/../bash-bp", "docker://Docker.IO/Heroku/Example:1.2.3", "https://example.com/%7Euser/a/./b.cnb"]))      # copied verbatim
         r.shuffle(deps)
         comps.append({"kind": "composite", "id": "meta/comp%d" % j, "dir": "meta/comp%d" % j, "deps": deps, "os": r.choice([None, "linux", "windows", "windows"]),
                       "bp_uri": r.choice([".", ".", "./"])})
